@@ -121,6 +121,8 @@ pub trait AuthH {
 	fn view(&self) -> &[u8];
 	/// `Deref` view (must agree with `as_authority`)
 	fn deref_view(&self) -> &[u8];
+	/// consumes the handle with `into_authority()`: (address, len) of the result
+	fn into_window(self) -> (usize, usize);
 }
 
 pub trait HasBytes {
@@ -206,6 +208,10 @@ macro_rules! family {
 			fn deref_view(&self) -> &[u8] {
 				let a: &$fam::Authority = &**self;
 				a.as_bytes()
+			}
+			fn into_window(self) -> (usize, usize) {
+				let a = self.into_authority();
+				(a.as_bytes().as_ptr() as usize, a.as_bytes().len())
 			}
 		}
 	};
@@ -449,13 +455,21 @@ pub fn auth_burst<O: AuthOwner>(o: &mut O, ops: &[BOp<AuthOp>], force_reopen: bo
 			Caught::Injected => unreachable!(),
 		}
 	}
-	drop(h);
+	// the edited handle itself is consumed by into_authority()
+	let iw = match guarded(move || h.into_window()) {
+		Caught::Ok(w) => Some(w),
+		Caught::Panic(m) => {
+			if log.panic.is_none() {
+				log.panic = Some((ops.len() - 1, "into_authority", m));
+			}
+			None
+		}
+		Caught::Injected => unreachable!(),
+	};
 	let base = o.bytes().as_ptr() as usize;
 	if log.panic.is_none() {
 		log.end_window = view_ptr.map(|(p, l)| (p.wrapping_sub(base), l));
-		if let Caught::Ok(w) = guarded(|| o.into_authority_window()) {
-			log.into_window = w;
-		}
+		log.into_window = iw.map(|(p, l)| (p.wrapping_sub(base), l));
 	}
 	log.final_text = o.bytes().to_vec();
 	Some(log)
